@@ -2,6 +2,7 @@ import DoitModel.Proofs.Opt
 import DoitModel.Proofs.OptGetopt
 import DoitModel.Proofs.OptConfig
 import DoitModel.Proofs.OptReject
+import DoitModel.Proofs.OptAccept
 /-! # C16 — option parsing is exact, pure and respects source precedence
 
 Property theorems only (model: `Model/Opt.lean`, helpers: `Proofs/Opt*.lean`).
@@ -75,15 +76,36 @@ theorem wf_names (spec : List Opt) (h : WF spec = true) : (spec.map (·.name)).N
   simp only [WF, Bool.and_eq_true, decide_eq_true_eq] at h
   exact h.1.1.1
 
-/-- the acceptance direction (every well-typed rendered input *is* accepted) is monitored on every run and
-    exhibited by the examples below, not proved in general: it needs the extra hypothesis that list options hold
-    list values in every source -/
-def accept_full : Prop :=
-  ∀ (spec : List Opt) (ini : List (Str × CfgVal)) (dodo : List (Str × Val)) (env : Str → Option Str) (xs : List Asg)
-    (pos : List Str), WF spec = true → xs.all (Asg.ok (shortTable spec) (longTable spec)) = true → PosOk pos = true →
-    allConvert spec ini env (pairsAll xs) = true →
-    (∀ o ∈ spec, o.ty = .list → ∃ l, baseValue o (envOf env o) (alookup o.name ini) = .ok (.l l)) →
-    ∃ p, pipeline spec ini dodo env (renderAll xs ++ pos) = .ok (p, pos)
+/-- **accept**: a rendered command line is never refused without a reason — if every text that has to be converted
+    converts (`allConvert`: config values of known options, environment values, scalar occurrences) and list-typed
+    options hold lists in their sources, the resolution succeeds and returns the written positionals. -/
+theorem accept (spec : List Opt) (ini : List (Str × CfgVal)) (dodo : List (Str × Val)) (env : Str → Option Str)
+    (xs : List Asg) (pos : List Str) (sep : Bool)
+    (hwf : (spec.map (·.name)).Nodup) (hini : (ini.map (·.1)).Nodup)
+    (hx : xs.all (Asg.ok (shortTable spec) (longTable spec)) = true) (hp : sep = true ∨ PosOk pos = true)
+    (hall : allConvert spec ini env (pairsAll xs) = true)
+    (hlists : ∀ o ∈ spec, o.ty = .list → ∃ l, baseValue o (envOf env o) (alookup o.name ini) = .ok (.l l)) :
+    ∃ p, pipeline spec ini dodo env (renderAll xs ++ (if sep then ['-', '-'] :: pos else pos)) = .ok (p, pos) := by
+  have hg : getopt spec (renderAll xs ++ (if sep then ['-', '-'] :: pos else pos)) = .ok (pairsAll xs, pos) := by
+    cases sep with
+    | true => exact roundtrip_getopt_sep spec xs pos hx
+    | false =>
+      rcases hp with hp | hp
+      · cases hp
+      · exact roundtrip_getopt spec xs pos hx hp
+  exact pipeline_accepts spec ini dodo env _ (pairsAll xs) pos hwf hini hg hall hlists
+
+/-- **roundtrip, total form**: accepted *and* exact — the conjunction of `accept` and `roundtrip` -/
+theorem roundtrip_total (spec : List Opt) (ini : List (Str × CfgVal)) (dodo : List (Str × Val))
+    (env : Str → Option Str) (xs : List Asg) (pos : List Str) (sep : Bool)
+    (hwf : (spec.map (·.name)).Nodup) (hini : (ini.map (·.1)).Nodup) (hdodo : (dodo.map (·.1)).Nodup)
+    (hx : xs.all (Asg.ok (shortTable spec) (longTable spec)) = true) (hp : sep = true ∨ PosOk pos = true)
+    (hall : allConvert spec ini env (pairsAll xs) = true)
+    (hlists : ∀ o ∈ spec, o.ty = .list → ∃ l, baseValue o (envOf env o) (alookup o.name ini) = .ok (.l l)) :
+    ∃ p, pipeline spec ini dodo env (renderAll xs ++ (if sep then ['-', '-'] :: pos else pos)) = .ok (p, pos) ∧
+      ∀ o ∈ spec, ∃ v, specOf spec ini dodo env (pairsAll xs) o = .ok v ∧ p.vals o.name = some v := by
+  obtain ⟨p, hpipe⟩ := accept spec ini dodo env xs pos sep hwf hini hx hp hall hlists
+  exact ⟨p, hpipe, (roundtrip spec ini dodo env xs pos sep p pos hwf hini hdodo hx hp hpipe).2⟩
 
 /-! ## reject -/
 
@@ -178,6 +200,13 @@ theorem reject_bad_env (st : PState) (env : Str → Option Str) (argv : List Str
   obtain ⟨e, he⟩ := hc
   exact parse_bad_env st env argv o ho s e hs he
 
+/-- an ill-typed / invalid-choice value in a config section (INI / TOML / API / per-task) for an option of the table -/
+theorem reject_bad_config (spec : List Opt) (ini : List (Str × CfgVal)) (dodo : List (Str × Val))
+    (env : Str → Option Str) (argv : List Str) (hwf : (spec.map (·.name)).Nodup) (hini : (ini.map (·.1)).Nodup)
+    (k : Str) (c : CfgVal) (o : Opt) (hm : (k, c) ∈ ini) (hf : findOpt spec k = some o)
+    (hbad : IsErr (str2typeCfg o c)) : IsErr (pipeline spec ini dodo env argv) :=
+  pipeline_bad_config spec ini dodo env argv hwf hini k c o hm hf hbad
+
 /-- what "ill-typed" and "invalid choice" mean for `str2type` -/
 theorem bad_int_is_error (o : Opt) (s : Str) (hty : o.ty = .int) (hbad : parseInt s = none) : IsErr (str2type o s) :=
   ⟨_, str2type_bad_int o s hty hbad⟩
@@ -189,7 +218,7 @@ theorem bad_choice_is_error (o : Opt) (s : Str) (v : Val) (hconv : convert o.ty 
 
 /-- an abbreviation that exactly one long name extends is read as that option (`--p=v` form) -/
 theorem unique_prefix (spec : List Opt) (xs : List Asg) (p n v : Str) (pos : List Str)
-    (hx : xs.all (Asg.ok (shortTable spec) (longTable spec)) = true) (hp : PosOk pos = true) (hne : p ≠ [])
+    (hx : xs.all (Asg.ok (shortTable spec) (longTable spec)) = true) (hp : PosOk pos = true)
     (heq : '=' ∉ p) (hu : possibilities (longTable spec) p = [(n, true)]) :
     getopt spec (renderAll xs ++ ('-' :: '-' :: (p ++ '=' :: v)) :: pos) = .ok (pairsAll xs ++ [(.long n, v)], pos) := by
   unfold getopt
